@@ -137,8 +137,8 @@ NET_ASSUME = ["a clean batch is evidence, not proof", "true parallel data races 
 
 PROPS["C01"] = dict(
     engine="netsim", level="exploration",
-    quick=dict(runs=24000, workers=16, stall_s=180, variants=["tcpab", "tcpab", "tcpab", "window"]),
-    thorough=dict(budget_s=900, workers=16, stall_s=300, variants=["tcpab", "tcpab", "tcpab", "window"]),
+    quick=dict(runs=24000, workers=16, stall_s=60, variants=["tcpab", "tcpab", "tcpab", "window"]),
+    thorough=dict(budget_s=900, workers=16, stall_s=120, variants=["tcpab", "tcpab", "tcpab", "window"]),
     rule="(three quarters of the workers) one evaluation = one seeded run of two real stacks joined by the simulated wire: 1-3 TCP connections, data both ways at once (position-keyed "
          "bytes), random write/read chunking and reader stalls, per-run swarm configuration (IPv4/IPv6, SACK per side, Reno/CUBIC, MTU 68-9000, "
          "send/receive buffers 1 KB-1 MB, initial sequence numbers placed just below 2^31/2^32 on either side), wire faults drop/duplicate/reorder/"
@@ -159,8 +159,8 @@ PROPS["C01"] = dict(
 
 PROPS["C02"] = dict(
     engine="netsim", level="exploration",
-    quick=dict(runs=16000, workers=16, stall_s=180, variants=["", "", "", "dropenum"]),
-    thorough=dict(budget_s=900, workers=16, stall_s=300, variants=["", "", "", "dropenum"]),
+    quick=dict(runs=16000, workers=16, stall_s=60, variants=["", "", "", "dropenum"]),
+    thorough=dict(budget_s=900, workers=16, stall_s=120, variants=["", "", "", "dropenum"]),
     rule="(three quarters of the workers) one evaluation = one seeded run of the C01 world under the statement's fault model: a bounded number (1-6) of drops of non-RST packets of the "
          "exchange (handshake, data, pure ACK, window update, FIN), no network delay (whatever is in flight arrives before the clock moves), all close "
          "orders (one-sided and simultaneous Shutdown, half-close then more data, Close with and without unread data, Close during handshake), reader "
@@ -204,9 +204,9 @@ PROPS["C13"] = dict(
 
 PROPS["C06"] = dict(
     engine="netsim", level="exploration",
-    quick=dict(runs=48000, workers=16, stall_s=180,
+    quick=dict(runs=48000, workers=16, stall_s=60,
                variants=["addr", "addr", "addr", "addr", "udp", "udp", "tcpab", "tcpab", "echo", "handshake", "window", "recovery", "demux", "neigh", "hostile", "app"]),
-    thorough=dict(budget_s=900, workers=16, stall_s=300,
+    thorough=dict(budget_s=900, workers=16, stall_s=120,
                   variants=["addr", "addr", "addr", "addr", "udp", "udp", "tcpab", "tcpab", "echo", "handshake", "window", "recovery", "demux", "neigh", "hostile", "app"]),
     rule="one evaluation = one seeded run of one of eleven scenarios, each worker process driving one of them: (addr, a quarter of the workers) one real "
          "stack with three interfaces - two Ethernet-like ones needing address resolution, each either a simulated NIC or the repository's fd-based "
@@ -265,8 +265,8 @@ PROPS["C03"] = dict(
 
 PROPS["C04"] = dict(
     engine="netsim", level="exploration",
-    quick=dict(runs=9600, workers=16, stall_s=180),
-    thorough=dict(budget_s=900, workers=16, stall_s=300),
+    quick=dict(runs=9600, workers=16, stall_s=60),
+    thorough=dict(budget_s=900, workers=16, stall_s=120),
     rule="one evaluation = one seeded history of 20-200 steps on one connection between a real stack and the scripted peer (opened actively or passively; "
          "peer MSS absent/1/88/536/1460/65535, window scale absent/0..14, timestamps, SACK, MTU 576-9000, buffers 4 KB-1 MB, Reno/CUBIC). Sender role: "
          "application writes of 1 B-70 KB; peer ACKs everything / half of it (also inside a segment) / repeats, with windows 0, 1, tiny, uniform, 65535; "
@@ -287,8 +287,8 @@ PROPS["C04"] = dict(
 
 PROPS["C05"] = dict(
     engine="netsim", level="exploration",
-    quick=dict(runs=32000, workers=16, stall_s=180),
-    thorough=dict(budget_s=900, workers=16, stall_s=300),
+    quick=dict(runs=32000, workers=16, stall_s=60),
+    thorough=dict(budget_s=900, workers=16, stall_s=120),
     rule="one evaluation = one seeded history of 10-120 steps on one connection (Reno or CUBIC, SACK and timestamps on/off, MSS 536/1000/1460) in which "
          "the stack sends flights of 1-200 segments to a scripted immediate-ACK receiver; the simulator decides which emitted segments the receiver "
          "never sees (every loss position, multiple losses, lost retransmissions), when it reads its inbox (delayed/bursty ACKs), injects extra "
@@ -309,8 +309,8 @@ PROPS["C05"] = dict(
 
 PROPS["C14"] = dict(
     engine="netsim", level="exploration",
-    quick=dict(runs=24000, workers=16, stall_s=180, variants=["tcpab", "tcpab", "window", "recovery"]),
-    thorough=dict(budget_s=900, workers=16, stall_s=300, variants=["tcpab", "tcpab", "window", "recovery"]),
+    quick=dict(runs=24000, workers=16, stall_s=60, variants=["tcpab", "tcpab", "window", "recovery"]),
+    thorough=dict(budget_s=900, workers=16, stall_s=120, variants=["tcpab", "tcpab", "window", "recovery"]),
     rule="the C01, C04 and C05 scenarios re-run with initial sequence numbers forced (not merely swarmed) so that the stack's own ISS (placed through the "
          "pkg/rand seam), the passive side's ISS (SYN-cookie constant measured in a pre-pass) or the scripted peer's ISS lies 0..60000 below 2^31 or "
          "2^32, i.e. the SYN, the first data byte, retransmitted segments, SACK blocks, window edges and the FIN straddle the boundary in some run; "
@@ -337,8 +337,8 @@ PROPS["C14"] = dict(
 
 PROPS["C11"] = dict(
     engine="netsim", level="exploration",
-    quick=dict(runs=32000, workers=16, stall_s=180),
-    thorough=dict(budget_s=900, workers=16, stall_s=300),
+    quick=dict(runs=32000, workers=16, stall_s=60),
+    thorough=dict(budget_s=900, workers=16, stall_s=120),
     rule="one evaluation = one seeded history of 10-120 steps against one real stack with up to six UDP sockets on distinct ports (IPv4 bound to a "
          "specific address / wildcard, dual-stack IPv6 wildcard, IPv4 and IPv6 connected, unbound sender): datagrams of 0..65507 bytes (boundary and "
          "uniform lengths, every payload self-identifying) from two peers and two source ports, single arrivals, arrivals whose processing overlaps the "
@@ -360,8 +360,8 @@ PROPS["C11"] = dict(
 
 PROPS["C09"] = dict(
     engine="netsim", level="exploration",
-    quick=dict(runs=48000, workers=16, stall_s=180),
-    thorough=dict(budget_s=900, workers=16, stall_s=300),
+    quick=dict(runs=48000, workers=16, stall_s=60),
+    thorough=dict(budget_s=900, workers=16, stall_s=120),
     rule="one evaluation = one seeded history of 10-80 steps against one real stack with two NICs, three local addresses (two on NIC 1, one on NIC 2), an "
          "unassigned address, optionally promiscuous mode or AddSubnet on NIC 1, three ports and three remote (address, port) pairs: UDP sockets bound to "
          "wildcard/specific addresses or connected (optionally bound or connected through an explicit interface, or bound to the wildcard and then "
@@ -391,8 +391,8 @@ PROPS["C09"] = dict(
 
 PROPS["C12"] = dict(
     engine="netsim", level="exploration",
-    quick=dict(runs=48000, workers=16, stall_s=180),
-    thorough=dict(budget_s=900, workers=16, stall_s=300),
+    quick=dict(runs=48000, workers=16, stall_s=60),
+    thorough=dict(budget_s=900, workers=16, stall_s=120),
     rule="one evaluation = one seeded history of 10-100 steps against one real stack on an Ethernet-like link that requires address resolution (on-link "
          "neighbours plus a gateway for off-link destinations): UDP sends to resolved/unresolved next hops (the write blocks, is retried when its "
          "notification channel closes), ARP replies with the current or a new link address, arriving at once, at the 1 s retry instants, just before/"
@@ -417,7 +417,7 @@ PROPS["C12"] = dict(
 PROPS["C07"] = dict(
     engine="netsim", level="exploration",
     quick=dict(runs=16000, workers=16, stall_s=120),
-    thorough=dict(budget_s=900, workers=16, stall_s=300, variants=["", "", "", "fragenum"]),
+    thorough=dict(budget_s=900, workers=16, stall_s=120, variants=["", "", "", "fragenum"]),
     rule="one evaluation = one seeded barrage of 50-400 (thorough: up to 2000) frames against a victim stack with a TCP listener, an established TCP "
          "connection holding unread data and unacknowledged data, a bound dual-stack and a connected UDP socket, IPv4+IPv6+ARP on a link that requires "
          "resolution, delivered as one view or in the fd-based 128/256/... scatter: structure-aware mutations of frames a peer could legitimately send "
@@ -443,8 +443,8 @@ PROPS["C07"] = dict(
 
 PROPS["C20"] = dict(
     engine="netsim", level="exploration",
-    quick=dict(runs=3200, workers=16, stall_s=180),
-    thorough=dict(budget_s=900, workers=16, stall_s=300),
+    quick=dict(runs=3200, workers=16, stall_s=60),
+    thorough=dict(budget_s=900, workers=16, stall_s=120),
     rule="one evaluation = one seeded client session against the bundled HTTP/WebSocket server, all inside one bubble over one real stack whose NIC is "
          "the repository's loopback link (inline delivery, 64 KB MTU) or a hairpin link through the simulated wire (MTU 576 or 1500, FIFO, frames handed "
          "up in one view or the fd-based scatter): 1-6 HTTP requests by the bundled client (GET/HEAD/POST/PUT; registered and unregistered paths; 0-3 "
